@@ -68,6 +68,8 @@ ASSUMPTIONS = [
     "un-synced WAL entries surviving crash() are not judged (the statement does not forbid extra durability)",
     "processes suspended at the crash die with it; work after a recovery is done by new processes in a new Simulation that starts at "
     "the crash instant on the same (recovered) LSMTree/WAL objects; what the first recovery made readable counts as durable",
+    "bystander stores are independent LSMTree+WAL instances in the same Simulation; when one loses power its own writer processes die "
+    "with it (engine `_crashed` flag) and it is judged by the same oracle on its own keys; the primary store must be unaffected",
     "auxiliary check beyond the letter of the statement (asked for by the integrator after commit b3cd99f): when a follow-up workload on "
     "the recovered tree runs to completion and its flushes leave should_compact() true, at least one compaction must have run",
     "put_sync goes through WriteAheadLog.append_sync, which never syncs: such a write is durable only once a later fsync covers it",
@@ -75,6 +77,8 @@ ASSUMPTIONS = [
 EXPECTED_PROBES = [
     "fault.crash_points", "fault.crash_in_flush_window", "fault.crash_in_compaction_window",
     "fault.second_crash_points", "fault.second_crash_in_flush_window", "fault.second_crash_in_compaction_window",
+    "fault.bystander_crash_points", "fault.bystander_crash_in_flush_window", "fault.bystander_crash_in_compaction_window",
+    "probe.bystander_outage_while_primary_holds_unflushed_writes",
     "fault.crash_points_policy_every", "fault.crash_points_policy_batch", "fault.crash_points_policy_periodic",
     "fault.crash_lost_unsynced_wal_tail", "fault.crash_lost_memtable_entries", "fault.crash_lost_immutable_memtable_entries",
     "fault.crash_with_writers_inside_wal_append", "probe.durable_write_restored_from_wal",
@@ -84,9 +88,9 @@ EXPECTED_PROBES = [
     "probe.wal_kept_entries_of_newer_memtable_across_flush", "probe.sync_api_write_in_workload",
     "probe.follow_up_workload_wanted_compaction", "probe.compaction_ran_after_crash_inside_compaction_window",
     "probe.crash_after_concurrent_flushes_with_different_write_times", "probe.second_crash_while_replayed_memtable_is_being_flushed",
-    "workloads_policy_every", "workloads_policy_batch", "workloads_policy_periodic",
+    "workloads_policy_every", "workloads_policy_batch", "workloads_policy_periodic", "workloads_with_bystander_store",
 ]
-SHRINK_SKIP = ("keys", "kind", "strategy", "klass", "policy")
+SHRINK_SKIP = ("keys", "kind", "strategy", "klass", "policy")  # side stores shrink like everything else
 
 CAP = 4000
 MAX_ALL = 72
@@ -227,14 +231,92 @@ def _pseudo_initial(key, value):
             "inv": -1, "ret": 0, "seq": 0, "sync_api": False}
 
 
+def check_mark(ctx, mon):
+    """fine: the durability mark is the observation channel of the oracle, so it must be honest: it moves only forward and
+    only in a delivery in which an fsync completed"""
+    mark, syncs = ctx.wal.synced_up_to, ctx.wal.stats.syncs
+    if mark < ctx._mark:
+        raise Violation("synced-mark-monotonic/WriteAheadLog/went-backwards",
+                        f"wal.synced_up_to went from {ctx._mark} to {mark} at delivery {mon.seq}")
+    if mark != ctx._mark and syncs == ctx._syncs:
+        raise Violation("synced-mark-only-at-sync-completion/WriteAheadLog/advanced-without-completed-sync",
+                        f"wal.synced_up_to advanced from {ctx._mark} to {mark} at delivery {mon.seq} although no sync "
+                        f"completed in that delivery (stats.syncs still {syncs})")
+    ctx._mark, ctx._syncs = mark, syncs
+
+
+class SideStore:
+    """A second, independent LSMTree + WAL living in the same Simulation as the primary store, with its own keys, writers and
+    reference model.  At its outage indices the harness crashes and recovers it between two deliveries (its writer processes
+    die with it, through the engine's own `_crashed` flag) while the primary store keeps running; it is judged on its own by
+    the same durability oracle.  Two instances must not influence each other."""
+
+    def __init__(self, world, idx, spec):
+        if not isinstance(spec, dict):
+            raise InvalidScenario("side store")
+        self.world, self.idx, self.spec = world, idx, spec
+        self.keys = spec.get("keys")
+        if not isinstance(self.keys, list) or not self.keys or sorted(set(self.keys)) != self.keys:
+            raise InvalidScenario("side keys")
+        eng = spec.get("engine")
+        if not isinstance(eng, dict) or eng.get("kind") != "lsm" or not isinstance(eng.get("wal"), dict):
+            raise InvalidScenario("side store needs an LSM tree with a WAL")
+        self.tag = f"s{idx}v"
+        self.lsm, self.ents = S.build_engine(eng, name=f"side{idx}")
+        self.wal = self.lsm._wal
+        self.hist = world.hist
+        self.tracker = S.ProcTracker()
+        self.by_seq, self.sync_api_ops, self.prior_values = {}, 0, {}
+        self.writes = {k: [] for k in self.keys}
+        ws = spec.get("writers")
+        if not isinstance(ws, list) or not ws:
+            raise InvalidScenario("side writers")
+        self.writers = [Writer(f"s{idx}w{i}", i, w, self) for i, w in enumerate(ws)]
+        out = spec.get("outages") or []
+        if not isinstance(out, list) or any(isinstance(x, bool) or not isinstance(x, int) or x < 1 for x in out):
+            raise InvalidScenario("outages")
+        self.outages = set(out)
+        self.watch = DurabilityWatch(self)
+        self.fow = S.FlushOrderWatch(self.lsm)
+        self.watch.observe()
+        self._mark, self._syncs = self.wal.synced_up_to, self.wal.stats.syncs
+        self.mon = None
+        self.outages_done = 0
+
+    def replayed_frozen(self) -> bool:
+        return False
+
+    def after(self, ev, mon):
+        self.mon = mon
+        self.watch.observe()
+        self.fow.observe()
+        check_mark(self, mon)
+        if mon.seq in self.outages:
+            W = self.world
+            prim = W.lsm
+            C = W.C
+            C["probe.bystander_outage_while_primary_holds_unflushed_writes"] += int(prim._memtable.size > 0 or bool(prim._immutable_memtables))
+            for w in self.writers:
+                w._crashed = True  # the repo's own crash flag: the engine drops this entity's pending continuations
+            out = crash_recover_judge(self, f"bystander store {self.idx}: outage after delivery {mon.seq}", C, W.states,
+                                      {"engine": self.spec["engine"]}, "side")
+            self.outages_done += 1
+            if isinstance(out, tuple):
+                raise Violation(out[0][4:] + "/bystander-store", out[1])
+
+
 class World:
     """One fresh instance of a workload phase (built identically for every
     re-run).  Phase 1 builds the LSM tree; phase 2 (`base` given) starts new
     writer processes on the *recovered* tree of `base` in a new Simulation that
     begins at the crash instant: the processes of phase 1 died with the crash."""
 
-    def __init__(self, sc, stop_at=None, *, base: "World | None" = None, recovered: dict | None = None):
+    def __init__(self, sc, stop_at=None, *, base: "World | None" = None, recovered: dict | None = None,
+                 C: dict | None = None, states: set | None = None):
         self.sc = sc
+        self.C = C if C is not None else {n: 0 for n in COUNTERS}
+        self.states = states if states is not None else set()
+        self.sides = []
         self.keys = sc.get("keys")
         if not isinstance(self.keys, list) or not self.keys or sorted(set(self.keys)) != self.keys:
             raise InvalidScenario("keys")
@@ -271,9 +353,15 @@ class World:
         if not isinstance(ws, list) or not ws:
             raise InvalidScenario("writers")
         self.writers = [Writer(f"{self.tag}w{i}", i, spec, self) for i, spec in enumerate(ws)]
-        self.sim = Simulation(entities=ents + self.writers, start_time=start)
+        if base is None:
+            side = sc.get("side") or []
+            if not isinstance(side, list):
+                raise InvalidScenario("side")
+            self.sides = [SideStore(self, i, sp) for i, sp in enumerate(side)]
+        all_writers = self.writers + [w for sd in self.sides for w in sd.writers]
+        self.sim = Simulation(entities=ents + [e for sd in self.sides for e in sd.ents] + all_writers, start_time=start)
         t0 = 0 if start is None else start.nanoseconds
-        for w in self.writers:
+        for w in all_writers:
             st = w.spec.get("start_ns", 0)
             if isinstance(st, bool) or not isinstance(st, int) or st < 0:
                 raise InvalidScenario("start")
@@ -289,17 +377,9 @@ class World:
     def _after(self, ev, mon):
         self.watch.observe()
         self.fow.observe()
-        # fine: the durability mark is the observation channel of the oracle, so it must be honest:
-        # it moves only forward and only in a delivery in which an fsync completed
-        mark, syncs = self.wal.synced_up_to, self.wal.stats.syncs
-        if mark < self._mark:
-            raise Violation("synced-mark-monotonic/WriteAheadLog/went-backwards",
-                            f"wal.synced_up_to went from {self._mark} to {mark} at delivery {mon.seq}")
-        if mark != self._mark and syncs == self._syncs:
-            raise Violation("synced-mark-only-at-sync-completion/WriteAheadLog/advanced-without-completed-sync",
-                            f"wal.synced_up_to advanced from {self._mark} to {mark} at delivery {mon.seq} although no sync "
-                            f"completed in that delivery (stats.syncs still {syncs})")
-        self._mark, self._syncs = mark, syncs
+        check_mark(self, mon)
+        for sd in self.sides:
+            sd.after(ev, mon)
         if self.stop_at is None:
             ph = self.tracker.phases()
             self.phase_log.append((ph["flush"] + len(self.lsm._immutable_memtables) > 0, ph["compact"] > 0,
@@ -427,6 +507,28 @@ def gen(rng, tier):
           "crash": {"ks": [], "second": []}}
     r2 = random.Random(sc["seed"])
     max_all = MAX_ALL if tier == "quick" else 400
+    if rng.random() < 0.2:
+        # bystander stores: 1-2 further, independent LSMTree+WAL instances in the same simulation, each with its own keys and
+        # writers (often a longer history than the primary's, started earlier); each loses power and is recovered at 1-2 delivery
+        # indices inside the primary's activity while the primary keeps running
+        sc["klass"] = klass + "+bystander"
+        sc["side"] = []
+        shift = rng.choice([0, 0, 1_000_000, 5_000_000, 20_000_000])
+        for w_ in sc["writers"]:
+            w_["start_ns"] += shift
+        for _ in range(rng.choice([1, 1, 2])):
+            nk = rng.randint(2, 4)
+            seng = S.gen_lsm_spec(rng, memtable=rng.choice([1, 2, 2, 3]), wal="no")
+            seng["wal"] = S.gen_wal_spec(rng)
+            sc["side"].append({"engine": seng, "keys": sorted(f"s{i:02d}" for i in rng.sample(range(100), nk)),
+                               "writers": [{"start_ns": rng.choice([0, 0, 100_000]), "ops": _gen_ops(rng, nk, rng.randint(4, 24), False)}
+                                           for _ in range(rng.randint(1, 2))], "outages": []})
+        w0, st0 = baseline(sc)
+        L0 = len(w0.phase_log)
+        first_primary = next((i + 1 for i, p_ in enumerate(w0.phase_log) if p_[2] > 0), 1)  # primary WAL non-empty
+        for sd in sc["side"]:
+            lo = min(L0, first_primary)
+            sd["outages"] = sorted(set(r2.sample(range(lo, L0 + 1), min(rng.choice([1, 1, 2]), L0 + 1 - lo)))) if L0 >= 1 else []
     w, st = baseline(sc)
     ks = choose_crash_points(w.phase_log, r2, max_all)
     sc["crash"]["ks"] = ks
@@ -520,7 +622,7 @@ def crash_recover_judge(W: World, label: str, C: dict, states: set, sc: dict, ph
 
     # ---- counters (what actually happened at this crash point)
     pol = sc["engine"]["wal"]["policy"]
-    pre = "fault.second_" if phase == "second" else "fault."
+    pre = {"second": "fault.second_", "side": "fault.bystander_"}.get(phase, "fault.")
     C[pre + "crash_points"] += 1
     C[f"fault.crash_points_policy_{pol}"] += 1
     C[pre + "crash_in_flush_window"] += int(in_flush)
@@ -538,7 +640,8 @@ def crash_recover_judge(W: World, label: str, C: dict, states: set, sc: dict, ph
     C["probe.crash_after_concurrent_flushes_with_different_write_times"] += int(W.fow.different_write_times)
     if phase == "second":
         C["probe.second_crash_while_replayed_memtable_is_being_flushed"] += int(in_flush and replay_frozen)
-    C["_sim_ns"] = C.get("_sim_ns", 0) + W.mon.last_time_ns
+    if phase != "side":
+        C["_sim_ns"] = C.get("_sim_ns", 0) + W.mon.last_time_ns
     states.add(repr((phase, pol, min(sc["engine"]["memtable"], 4), min(len(W.writers), 3), in_flush, in_comp,
                      min(in_append, 2), info["wal_entries_lost"] > 0, info["memtable_entries_lost"] > 0,
                      min(rec["wal_entries_replayed"], 3), rec["sstable_keys"] > 0, min(W.watch.max_levels_occupied, 3))))
@@ -607,7 +710,7 @@ def crash_recover_judge(W: World, label: str, C: dict, states: set, sc: dict, ph
 
 def first_crash(sc, k, L, base_digest, C, states):
     """Fresh re-run stopped after delivery k, then crash/recover/judge.  -> (World, outcome)"""
-    W = World(sc, stop_at=k)
+    W = World(sc, stop_at=k, C=C, states=states)
     st = W.run()
     if st != "stopped":
         if isinstance(st, tuple):
@@ -655,6 +758,8 @@ def second_crash(sc, k, j, L, base_digest, C, states):
 COUNTERS = [
     "fault.crash_points", "fault.crash_in_flush_window", "fault.crash_in_compaction_window",
     "fault.second_crash_points", "fault.second_crash_in_flush_window", "fault.second_crash_in_compaction_window",
+    "fault.bystander_crash_points", "fault.bystander_crash_in_flush_window", "fault.bystander_crash_in_compaction_window",
+    "probe.bystander_outage_while_primary_holds_unflushed_writes",
     "fault.crash_points_policy_every", "fault.crash_points_policy_batch", "fault.crash_points_policy_periodic",
     "fault.crash_lost_unsynced_wal_tail", "fault.crash_lost_memtable_entries", "fault.crash_lost_immutable_memtable_entries",
     "fault.crash_with_writers_inside_wal_append",
@@ -721,6 +826,8 @@ def run(sc):
     C["flushes"] = base.lsm.stats.memtable_flushes
     C["compactions"] = base.lsm.stats.compactions
     C[f"workloads_policy_{sc['engine']['wal'].get('policy')}"] = 1
+    if sc.get("side"):
+        C["workloads_with_bystander_store"] = 1
     nontrivial = (C["fault.crash_in_flush_window"] + C["fault.crash_in_compaction_window"] > 0
                   and C["probe.durable_write_restored_from_wal"] > 0)
     return result(sig=sig, msg=msg or "", digest=hh.hexdigest(), nontrivial=nontrivial, counters=C,
